@@ -293,5 +293,6 @@ MANIFEST_ENTRY = {
                    'residue_label, find_group, top-up, precheck grouping, sort key) is run with symbolic (chain, number, insertion code) for the residues '
                    'involved; labels are built by the real format strings over symbolic integers/characters. A renaming that keeps residue identities '
                    'distinct leaves every predicate\'s truth value unchanged, hence the numbers; that last step is argued, not solved. '
-                   'Known finding (recorded, not repaired because the shipped 3SGB reference depends on it): insertion codes are ignored.'),
+                   'Known finding (recorded, not repaired because the shipped 3SGB reference depends on it): insertion codes are ignored.'
+                   " O6: whole pipeline under concrete relabellings of a second chain (collisions with the first chain's numbers, negative, > 999, other identifiers), with/without TER, across an inter-chain disulfide."),
 }
